@@ -157,6 +157,13 @@ func (p invopPanicStringer) String() string {
 	panic(parser.ErrInvalidOperation)
 }
 
+type slowStringer struct{ s string }
+
+func (v slowStringer) String() string {
+	time.Sleep(2200 * time.Millisecond)
+	return v.s
+}
+
 type treeT []treeT
 type mapT map[string]mapT
 type ptrT *ptrT
@@ -371,6 +378,22 @@ func other(tag int) interface{} {
 		return strings.NewReader("abc")
 	case 59:
 		return bufio.NewReader(strings.NewReader("abc"))
+	case 60: // typed nil pointers of error types of the standard library and of the library itself
+		return (*strconv.NumError)(nil)
+	case 61: // a decoded JSON array of 40 arrays (elements that cannot be map keys)
+		l := make([]interface{}, 40)
+		for i := range l {
+			l[i] = []interface{}{i, map[string]interface{}{"k": i}}
+		}
+		return l
+	case 62: // a pointer to a string is not a string
+		s := "1.10.0"
+		return &s
+	case 63: // a struct with an unexported field and a value JSON cannot encode
+		return struct {
+			Value float64
+			unit  string
+		}{math.Inf(1), "C"} // (not NaN: the deep comparison of the driver would call the object changed)
 	case 33: // a list of strings with capitals (in-place lower-casing would show)
 		return []string{"Admin", "ROOT", "Ops"}
 	case 34:
@@ -503,6 +526,12 @@ func buildVal(x *sexp) (interface{}, error) {
 		keptPtr.s = s
 		keptPtrUsed = true
 		return keptPtr, nil
+	case "strslow": // a value whose String() takes 2.2 s (a lookup behind it): slow, not wrong
+		s, ok := hexBytes(a)
+		if !ok {
+			return nil, errors.New("bad string")
+		}
+		return slowStringer{s}, nil
 	case "strtm":
 		s, ok := hexBytes(a)
 		if !ok {
@@ -1167,6 +1196,7 @@ var keptPtrUsed bool
 
 func doHist(id, rule string, ops *sexp) string {
 	keptPtr, keptPtrUsed = nil, false
+	h3 := true
 	ev, err := parser.NewEvaluator(rule)
 	if err != nil || ev == nil {
 		return id + " out=NEWERR"
@@ -1247,6 +1277,22 @@ func doHist(id, rule string, ops *sexp) string {
 			v, perr = ev.Process(obj)
 		}()
 		keep(perr)
+		// the Evaluate functions on the very same object value, after every call of a short history (a memo keyed by the identity of the
+		// caller's map must notice that the caller changed it in place)
+		if len(ops.list) <= 200 && !keptPtrUsed {
+			func() {
+				defer func() {
+					if r := recover(); r != nil {
+						h3 = false
+					}
+				}()
+				v2, e2 := rules.Evaluate(rule, obj)
+				v3 := parser.Evaluate(rule, obj)
+				if v2 != v || (e2 != nil) != (perr != nil) || v3 != v {
+					h3 = false
+				}
+			}()
+		}
 		if op.list[0].atom == "n" {
 			// Process without looking at the diagnostic afterwards
 			outs = append(outs, "p"+b01(v)+","+errClass(perr)+",skip")
@@ -1265,7 +1311,7 @@ func doHist(id, rule string, ops *sexp) string {
 			keptState = "changed"
 		}
 	}
-	return id + " out=" + strings.Join(outs, ";") + " kept=" + keptState
+	return id + " out=" + strings.Join(outs, ";") + " kept=" + keptState + " h3=" + b01(h3)
 }
 
 var sharedOps = map[string]parser.Operation{"null": &parser.NullOperation{}, "bool": &parser.BoolOperation{}, "int": &parser.IntOperation{}, "float": &parser.FloatOperation{},
@@ -1483,7 +1529,8 @@ func doLine(line string) string {
 		if !ok {
 			return id + " BADCASE"
 		}
-		var outs []string
+		var outs, texts []string
+		sameText := true
 		func() {
 			defer func() {
 				if r := recover(); r != nil {
@@ -1502,9 +1549,22 @@ func doLine(line string) string {
 				}
 				v, perr := e.ev.Process(obj)
 				outs = append(outs, b01(v)+","+errClass(perr)+","+dbgClass(e.ev.LastDebugErr()))
+				texts = append(texts, textHash(perr))
+			}
+			// the text of the error of a rule is the same whether or not another evaluator was created in between
+			for i, r := range []string{ra, rb, ra} {
+				solo, serr := parser.NewEvaluator(r)
+				want := "-"
+				if serr == nil && solo != nil {
+					_, perr := solo.Process(obj)
+					want = textHash(perr)
+				}
+				if i < len(texts) && texts[i] != want && !(serr != nil) {
+					sameText = false
+				}
 			}
 		}()
-		return id + " out=" + strings.Join(outs, ";")
+		return id + " out=" + strings.Join(outs, ";") + " ilt=" + b01(sameText)
 	case "cyclic":
 		n, err := strconv.Atoi(x.list[2].atom)
 		if err != nil {
